@@ -227,3 +227,9 @@ def c12(work, tier, seed, replay):
 def c05(work, tier, seed, replay):
     import fam_oidc as fo
     return fo.c05(work, tier, seed)
+
+
+@check("C11")
+def c11(work, tier, seed, replay):
+    import fam_gateway as fg
+    return fg.c11(work, tier, seed)
